@@ -88,8 +88,15 @@ class _BeamBase(Harness):
                 hs = "".join(map(str, h)) or "e"
                 lg = [eng.grid(f"lg{e}_{hs}_{v}", -8, 8, 4) for v in range(V)]
                 l = z3.Real(f"lse{e}_{hs}")
-                self.lse[(e, h)] = (l, lg)
-                table[(e, code_of(h, V))] = [lg[v] - l for v in range(V)]
+                if c.get("zeros"):
+                    # hard zeros: a token may have probability zero (logit -inf) after this history; at least one token stays possible
+                    zs = [eng.bool(f"z{e}_{hs}_{v}") for v in range(V)]
+                    eng.assume(z3.Not(z3.And(*zs)))
+                    self.lse[(e, h)] = (l, lg, zs)
+                    table[(e, code_of(h, V))] = [XR(False, lg[v] - l, zs[v], False) for v in range(V)]
+                else:
+                    self.lse[(e, h)] = (l, lg)
+                    table[(e, code_of(h, V))] = [lg[v] - l for v in range(V)]
         return table
 
     def _real_table(self, vals, elems):
@@ -99,14 +106,17 @@ class _BeamBase(Harness):
         for e in elems:
             for h in histories(V, T):
                 hs = "".join(map(str, h)) or "e"
-                lg = torch.tensor([vals[f"lg{e}_{hs}_{v}"] / 4 for v in range(V)], dtype=torch.float64)
+                lg = torch.tensor([(-math.inf if (c.get("zeros") and vals[f"z{e}_{hs}_{v}"]) else vals[f"lg{e}_{hs}_{v}"] / 4) for v in range(V)], dtype=torch.float64)
                 table[(e, code_of(h, V))] = torch.log_softmax(lg, 0).tolist()
         return table
 
     def pin(self, vals, model):
         cons = []
-        for (e, h), (l, lg) in self.lse.items():
+        for (e, h), ent in self.lse.items():
+            l, lg = ent[0], ent[1]
             xs = [float(E.eval_cell(model, x)) for x in lg]
+            if len(ent) == 3:
+                xs = [x for x, z in zip(xs, ent[2]) if not z3.is_true(model.eval(z, model_completion=True))]
             m = max(xs)
             cons.append(l == z3.RealVal(Fraction(m + math.log(sum(math.exp(x - m) for x in xs))).limit_denominator(10 ** 9)))
         return cons
@@ -357,11 +367,12 @@ META = dict(
     ),
     assumptions=[
         "language-model scores: log_softmax(logits) modelled as logits - lse(history) with lse uninterpreted, pinned to the true logsumexp for validation/replay; the library's log_softmax call is the identity on log-probabilities",
+                 "hard zeros (configurations with zeros=True): a solver Boolean per (history, token) makes the token impossible (-inf) after that history; at least one token stays possible per history",
         "topk ties broken towards the lowest index in the model; counterexamples preferentially tie-free and always replayed on the real library",
         "uninitialised memory (new_empty) is an unconstrained symbol",
         "all log-probabilities finite (no zero-probability tokens)",
     ],
-    outside=["vocabularies/steps beyond the bound", "zero-probability (-inf) model scores", "subclasses overriding update_log_probs_for_step", "TorchScript variants"],
+    outside=["vocabularies/steps beyond the bound", "subclasses overriding update_log_probs_for_step", "TorchScript variants"],
 )
 
 M_ = "checks.c04"
@@ -385,7 +396,15 @@ def tasks(tier):
         # incl. beams wider than the vocabulary with eos: one element can freeze with a non-full beam while the other goes on
         for V, W, eos, fa, T in [(2, 2, 1, False, 3), (2, 2, 0, True, 3), (3, 2, 1, False, 2), (2, 3, None, False, 2), (2, 3, 1, False, 3), (2, 4, 0, True, 2)]:
             ts.append(task(PROP, M_, "BeamBatchH", V=V, width=W, eos=eos, finish_all=fa, max_iters=T))
+        # hard zeros: a token may be impossible after a history, so batch elements can have different numbers of reachable candidates
+        for V, W, eos, fa, T in [(2, 2, 1, True, 2), (2, 2, 1, False, 2), (2, 3, 1, True, 2)]:
+            ts.append(task(PROP, M_, "BeamBatchH", V=V, width=W, eos=eos, finish_all=fa, max_iters=T, zeros=True))
+        for V, W, eos, fa, T in [(2, 2, 1, True, 2), (2, 3, 0, False, 3)]:
+            ts.append(task(PROP, M_, "BeamSearchH", V=V, width=W, eos=eos, finish_all=fa, max_iters=T, N=2, zeros=True))
     else:
+        for V, W, eos, fa, T in [(2, 2, 1, True, 2), (2, 2, 1, False, 2), (2, 3, 1, True, 2), (2, 2, 0, True, 3), (2, 4, 1, False, 3), (3, 2, 2, True, 2), (2, 2, None, False, 2)]:
+            ts.append(task(PROP, M_, "BeamBatchH", V=V, width=W, eos=eos, finish_all=fa, max_iters=T, zeros=True))
+            ts.append(task(PROP, M_, "BeamSearchH", V=V, width=W, eos=eos, finish_all=fa, max_iters=T, N=2, zeros=True))
         for V in (2, 3):
             for T in range(0, 5 if V == 2 else 4):
                 for eos in [None] + list(range(V)):
